@@ -105,6 +105,10 @@ func genC16Prog(id int, rng *rand.Rand) *Prog {
 		}
 		files["main/"+n] = hdr + bodies[i].String()
 	}
+	if id%4 == 2 {
+		// a _test.go file that sorts before the other files is ignored and does not disturb their order
+		files["main/a0_test.go"] = "package main\n\nvar testOnly = note(99)\n"
+	}
 	desc = append(desc, fmt.Sprint(perm), fmt.Sprint(nfiles))
 	p := &Prog{ID: "c16:" + strings.Join(desc, "/"), Files: files, Entry: "Main", Params: []Param{{"a", "int"}, {"b", "int"}}, Results: []string{"int"},
 		Family: fmt.Sprintf("C16/E/perm%v/files%d/seed%d", perm, nfiles, id), Src: "package main\n"}
